@@ -379,10 +379,10 @@ def check_strict_producers(ctx, F):
         for r in paths:
             for i, e in enumerate(r.events):
                 if e['kind'] == 'literal' and e['adt'] in adts:
-                    v = c19.validator_ok_before(r, i)
+                    v = c19.validator_ok_before(r, i, F)
                     guards = [x for x in r.events[:i] if x['kind'] == 'assert'] + [x for x in r.events[:i] if x['kind'] == 'branch' and _other_arm_fails(paths, x)]
                     if v:
-                        verdict = verdict or ('ok', 'after Ok of ' + v)
+                        verdict = verdict or ('ok', 'after Ok of the %s validator' % v)
                     elif from_crate_model:
                         verdict = verdict or ('ok', 'copy/view of an existing crate-defined model')
                     elif generic_source:
@@ -404,7 +404,7 @@ def check_strict_producers(ctx, F):
             for c in callers:
                 gen = any((callee(t) or {}).get('def') == 'stream::model::IterableEntropyModel::symbol_table' for _, t in c.calls())
                 crate_src = any((F.ty_adt(c.local_ty(l)) or '').startswith('stream::model::') for l in range(1, c.arg_count + 1))
-                has_validator = any((callee(t) or {}).get('name') in c19.VALIDATOR_NAMES for _, t in c.calls())
+                has_validator = any((callee(t) or {}).get('def') in c19.vdefs(F) for _, t in c.calls())
                 inline = _has_inline_guards(b)
                 if gen and not crate_src and not has_validator and not inline:
                     badc.append(c.defpath)
@@ -428,8 +428,8 @@ def check_strict_producers(ctx, F):
             for i, e in enumerate(r.events):
                 if e['kind'] == 'literal' and e['adt'] in LOOKUP_OWNERS:
                     how = None
-                    if c19.validator_ok_before(r, i) == 'accumulate_nonzero_probabilities':
-                        how = 'filled inside accumulate_nonzero_probabilities (validated total 2^PRECISION)'
+                    if c19.validator_ok_before(r, i, F) == 'fixed_point':
+                        how = 'filled inside the fixed-point validator (validated total 2^PRECISION)'
                     for x in r.events[:i]:
                         if x['kind'] == 'call' and x['name'] == 'resize' and len(x['args']) >= 2 and _is_pow2_precision(x['args'][1]):
                             how = 'Vec::resize(1 << PRECISION, _)'
